@@ -162,6 +162,13 @@ def run_cases(module: str, cases: list[dict], *, workers: int, case_timeout: flo
                     # fresh worker with a doubled budget before the run may be called inconclusive.
                     case["_retries"] = case.get("_retries", 0) + 1
                     case["timeout"] = 1.5 * float(case.get("timeout", case_timeout))
+                    try:
+                        # keep a trace of what was undecidable (for the person reading a slow run afterwards)
+                        with open(common.WORK_ROOT / "retried_cases.jsonl", "a", encoding="utf-8") as handle:
+                            handle.write(json.dumps({"module": module, "case": case, "diag": {
+                                k: v for k, v in record.get("diag", {}).items() if k != "stacks"}}, default=str) + "\n")
+                    except OSError:
+                        pass
                     with lock:
                         retried[0] += 1
                     todo.put((i, case))
